@@ -1,5 +1,7 @@
 //! E1 as a library: the virtual-transport simulator (used by the vsim binary and by netsim's C11 check), and the C08 sweep (which netsim's C08 runs before its own listener-level segmentations).
 pub mod alloc;
+pub mod c01;
+pub mod c02;
 pub mod c08;
 pub mod sim;
 pub mod util;
